@@ -30,9 +30,11 @@ open PsdVerif PsdVerif.Pixels PsdVerif.MergedPixels PsdVerif.PixelSamples
 inversion with its guard — three `ImageChops.invert` under `mode == 'CMYK'`, none on the NumPy path —, the
 callers and the expression of the matte removal, the depth and file version handed to the channel decoders, as
 the model has them. -/
+-- (48a22b5: a mode-`1` band in a document whose depth is not 1 — a bitmap document made by `PSDImage.new` — is widened
+-- to `L` first, bit ↦ 0 / 255 as `toGray .one`; the per-depth arithmetic below then applies to that byte.)
 theorem samples_tied :
     Generated.PixelSamples.planeBody =
-      ["if psd_file is not None and depth == 16: { return (np.asarray(band).astype('>u2') * 257).tobytes() }", "if psd_file is not None and depth == 32: { return (np.asarray(band).astype('>f4') / 255.0).astype('>f4').tobytes() }", "return band.tobytes()"] ∧
+      ["if band.mode == '1' and depth != 1: { band = band.convert('L') }", "if psd_file is not None and depth == 16: { return (np.asarray(band).astype('>u2') * 257).tobytes() }", "if psd_file is not None and depth == 32: { return (np.asarray(band).astype('>f4') / 255.0).astype('>f4').tobytes() }", "return band.tobytes()"] ∧
     Generated.PixelSamples.planeArith =
       [(16, [("Mult", (importMul16 : Int), 1)], ["astype:>u2"], ["np.asarray", "astype", "tobytes"]), (32, [("Div", (importDiv32 : Int), 1)], ["astype:>f4", "astype:>f4"], ["np.asarray", "astype", "astype", "tobytes"])] ∧
     Generated.PixelSamples.frompilIfs =
